@@ -38,3 +38,7 @@ pub(crate) mod c18 {
 pub(crate) mod c20 {
     include!(concat!(env!("OSRG_RUSTYBGP_VERIF_DIR"), "/hd/ev_c20.rs"));
 }
+#[allow(dead_code, unused_imports, unused_variables, clippy::all)]
+pub(crate) mod c19 {
+    include!(concat!(env!("OSRG_RUSTYBGP_VERIF_DIR"), "/hd/ev_c19.rs"));
+}
